@@ -45,6 +45,18 @@ Theorem C01_quorum_valid_means_ascending_and_in_place :
                    exists a, rec recover (dg keccak v) (s_data s) = Some a /\ nth_error K (Z.to_nat (s_idx s)) = Some a) (sigs v).
 Proof. intros recover keccak v K [(H1 & H2 & _) _]. split; [exact H1|exact H2]. Qed.
 
+(* downstream: such a VAA passes VerifySignatures against that set (what peers and the explorer run, C06/C19) and the signature
+   count test of both contracts (formulas and comparison directions extracted from Messages.sol and governance.ral, C07) *)
+Theorem C01_published_vaa_passes_VerifySignatures :
+  forall recover keccak v K, qvalid recover keccak v K -> verify_sigs (rec recover) keccak v K = true.
+Proof. exact qvalid_passes_verify. Qed.
+
+Theorem C01_published_vaa_passes_contract_quorum :
+  forall recover keccak v K, qvalid recover keccak v K ->
+  sol_quorum_accepts (sol_quorum (Z.of_nat (length K))) (Z.of_nat (length (sigs v))) = true /\
+  ral_quorum_accepts (ral_quorum (Z.of_nat (length K))) (Z.of_nat (length (sigs v))) = true.
+Proof. exact qvalid_passes_contract_quorum. Qed.
+
 (* non-vacuity: a concrete history (toy oracles) in which the node, sole member of its set, observes a message and publishes it *)
 Definition ex_own : addr := repeat x01 20.
 Definition ex_recover (h s : bytes) : option bytes := Some (firstn 20 s).
@@ -81,3 +93,5 @@ Print Assumptions C01_every_published_vaa_is_quorum_valid.
 Print Assumptions C01_store_holds_only_quorum_valid_vaas.
 Print Assumptions C01_quorum_valid_means_distinct_members.
 Print Assumptions C01_quorum_valid_means_ascending_and_in_place.
+Print Assumptions C01_published_vaa_passes_VerifySignatures.
+Print Assumptions C01_published_vaa_passes_contract_quorum.
